@@ -4,11 +4,11 @@ package main
 // functions, command literals, store submissions.
 
 import (
-	"regexp"
 	"fmt"
 	"go/ast"
 	"go/token"
 	"go/types"
+	"regexp"
 	"sort"
 	"strings"
 
@@ -176,11 +176,12 @@ func isRecordType(t types.Type) bool {
 }
 
 // prov normalises an expression to a provenance string. Roles:
-//   req     the request (any *t_api.XRequest reached from the request parameter)
-//   rec     a record read from the store (or its decoded form)
-//   now     the coroutine clock c.Time()
-//   config  the system configuration
-//   cmd     a command handed to a helper
+//
+//	req     the request (any *t_api.XRequest reached from the request parameter)
+//	rec     a record read from the store (or its decoded form)
+//	now     the coroutine clock c.Time()
+//	config  the system configuration
+//	cmd     a command handed to a helper
 func (pe *provEnv) prov(e ast.Expr) string { return pe.provD(e, 0) }
 
 func (pe *provEnv) provD(e ast.Expr, depth int) string {
@@ -852,9 +853,166 @@ func (m *coroModel) structLits(pkg, typeName string) []*cmdLit {
 				}
 			}
 			l.Conds = cf.Env.enclosingConds(cf.Decl.Body, cl)
-			out = append(out, m.hoist(l, cf)...)
+			for _, v := range m.patchedVariants(l, cf) {
+				out = append(out, m.hoist(v, cf)...)
+			}
 			return true
 		})
+	}
+	return out
+}
+
+// patchedVariants: a literal that is stored in a variable (directly, or as a member of a literal
+// that is) and then completed by field assignments `v.path.F = x` is one object per way of
+// completing it: assignments in the literal's own block change the literal itself; the assignments
+// of a conditional block give a variant governed by that block's conditions (and the unpatched
+// literal is then governed by the complement, when the block is a plain if / else branch).
+func (m *coroModel) patchedVariants(l *cmdLit, cf *coroFunc) []*cmdLit {
+	info := m.Pk.TypesInfo
+	body := cf.Decl.Body
+	chain := enclosing(body, l.Lit)
+	// the statement that stores the literal and the access path of the literal from the variable
+	var root types.Object
+	var stmt ast.Stmt
+	path := ""
+	var inner ast.Node = l.Lit
+	for i := len(chain) - 1; i >= 0; i-- {
+		switch x := chain[i].(type) {
+		case *ast.UnaryExpr, *ast.ParenExpr:
+		case *ast.KeyValueExpr:
+			if x.Value != inner && ast.Unparen(x.Value) != inner {
+				return []*cmdLit{l}
+			}
+			path = "." + exprString(x.Key) + path
+		case *ast.CompositeLit:
+		case *ast.AssignStmt:
+			if len(x.Lhs) != 1 || len(x.Rhs) != 1 {
+				return []*cmdLit{l}
+			}
+			id, ok := x.Lhs[0].(*ast.Ident)
+			if !ok {
+				return []*cmdLit{l}
+			}
+			if root = info.Defs[id]; root == nil {
+				root = info.Uses[id]
+			}
+			stmt = x
+		default:
+			if stmt == nil {
+				return []*cmdLit{l}
+			}
+		}
+		if stmt != nil {
+			break
+		}
+		inner = chain[i]
+	}
+	if root == nil || stmt == nil {
+		return []*cmdLit{l}
+	}
+	blockOf := func(n ast.Node) *ast.BlockStmt {
+		ch := enclosing(body, n)
+		for i := len(ch) - 1; i >= 0; i-- {
+			if b, ok := ch[i].(*ast.BlockStmt); ok {
+				return b
+			}
+		}
+		return body
+	}
+	home := blockOf(stmt)
+	type group struct {
+		block  *ast.BlockStmt
+		first  *ast.AssignStmt
+		fields map[string]string
+	}
+	var groups []*group
+	ast.Inspect(body, func(n ast.Node) bool {
+		if _, isFn := n.(*ast.FuncLit); isFn {
+			return false
+		}
+		as, ok := n.(*ast.AssignStmt)
+		if !ok || as.Tok != token.ASSIGN || len(as.Lhs) != len(as.Rhs) || as.Pos() < stmt.End() {
+			return true
+		}
+		for i, lh := range as.Lhs {
+			se, ok := ast.Unparen(lh).(*ast.SelectorExpr)
+			if !ok {
+				continue
+			}
+			// se.X must be <root><path>
+			base := ast.Unparen(se.X)
+			var names []string
+			for {
+				if s2, ok := base.(*ast.SelectorExpr); ok {
+					names = append([]string{s2.Sel.Name}, names...)
+					base = ast.Unparen(s2.X)
+					continue
+				}
+				break
+			}
+			rid, ok := base.(*ast.Ident)
+			if !ok || info.Uses[rid] != root {
+				continue
+			}
+			p := ""
+			for _, nm := range names {
+				p += "." + nm
+			}
+			if p != path {
+				continue
+			}
+			if !containsNode(home, as) {
+				continue // not reachable from the literal's statement without leaving its block
+			}
+			b := blockOf(as)
+			var g *group
+			for _, x := range groups {
+				if x.block == b {
+					g = x
+				}
+			}
+			if g == nil {
+				g = &group{block: b, first: as, fields: map[string]string{}}
+				groups = append(groups, g)
+			}
+			g.fields[se.Sel.Name] = cf.Env.prov(as.Rhs[i])
+		}
+		return true
+	})
+	if len(groups) == 0 {
+		return []*cmdLit{l}
+	}
+	out := []*cmdLit{l}
+	for _, g := range groups {
+		if g.block == home {
+			for f, v := range g.fields {
+				l.Fields[f] = v
+			}
+			continue
+		}
+		v := &cmdLit{Type: l.Type, Func: l.Func, Lit: l.Lit, Fields: map[string]string{}, Pos: g.first.Pos()}
+		for f, x := range l.Fields {
+			v.Fields[f] = x
+		}
+		for f, x := range g.fields {
+			v.Fields[f] = x
+		}
+		v.Conds = cf.Env.enclosingConds(body, g.first)
+		out = append(out, v)
+		// the unpatched literal holds on the complement of a plain if / else branch of its own block
+		ch := enclosing(body, g.first)
+		for i := len(ch) - 1; i >= 0; i-- {
+			if ifs, ok := ch[i].(*ast.IfStmt); ok {
+				if blockOf(ifs) == home && ifs.Init == nil {
+					if ifs.Body == g.block {
+						l.Conds = append(l.Conds, cf.Env.condAtoms(ifs.Cond, true)...)
+					} else if ifs.Else == ast.Stmt(g.block) {
+						l.Conds = append(l.Conds, cf.Env.condAtoms(ifs.Cond, false)...)
+					}
+				}
+				break
+			}
+		}
 	}
 	return out
 }
@@ -1078,6 +1236,12 @@ func (pe *provEnv) helperResultProv(e ast.Expr, k int, depth int) (string, bool)
 						errExit = true
 					}
 				}
+				// the comma-ok form: (nil, false) is the failure exit of a helper that ends in (v, true)
+				if b, isB := sig.Results().At(j).Type().Underlying().(*types.Basic); isB && b.Kind() == types.Bool && j == sig.Results().Len()-1 {
+					if exprString(ast.Unparen(r)) == "false" && exprString(ast.Unparen(last.Results[j])) == "true" {
+						errExit = true
+					}
+				}
 			}
 		}
 		if !errExit {
@@ -1155,6 +1319,13 @@ func (pe *provEnv) condAtoms(e ast.Expr, neg bool) []string {
 			}
 			return []string{"(" + strings.Join(append(pe.condAtoms(x.X, false), pe.condAtoms(x.Y, false)...), " || ") + ")"}
 		case token.EQL, token.NEQ, token.LSS, token.LEQ, token.GTR, token.GEQ:
+			if x.Op == token.EQL || x.Op == token.NEQ {
+				if ents, k, eq, ok := pe.comparisonPartition(x); ok {
+					if as, ok := partitionAtoms(ents, k, eq != neg); ok {
+						return as
+					}
+				}
+			}
 			op := x.Op
 			if neg {
 				op = map[token.Token]token.Token{token.EQL: token.NEQ, token.NEQ: token.EQL, token.LSS: token.GEQ, token.GEQ: token.LSS, token.LEQ: token.GTR, token.GTR: token.LEQ}[op]
@@ -1167,6 +1338,11 @@ func (pe *provEnv) condAtoms(e ast.Expr, neg bool) []string {
 				l, r, op = r, l, token.LEQ
 			}
 			return []string{"(" + l + " " + op.String() + " " + r + ")"}
+		}
+	}
+	if ents, k, eq, ok := pe.comparisonPartition(e); ok {
+		if as, ok := partitionAtoms(ents, k, eq != neg); ok {
+			return as
 		}
 	}
 	p := pe.prov(e)
@@ -1257,7 +1433,22 @@ func (pe *provEnv) earlyExitGuards(list []ast.Stmt, at ast.Node) []string {
 			return true
 		})
 		if ifs.Init != nil {
-			continue
+			// `if v := lookup(x); v != nil { return v }`: the scoped variable stands for the looked-up
+			// value; scoped errors (`if err := f(); err != nil`) stay out of the governing conditions
+			as, ok := ifs.Init.(*ast.AssignStmt)
+			if !ok || as.Tok != token.DEFINE || len(as.Lhs) != 1 || len(as.Rhs) != 1 {
+				continue
+			}
+			id, ok := as.Lhs[0].(*ast.Ident)
+			if !ok {
+				continue
+			}
+			if o := pe.pk.TypesInfo.Defs[id]; o == nil || isErrorType(o.Type()) {
+				continue
+			}
+			if _, isCall := ast.Unparen(as.Rhs[0]).(*ast.CallExpr); isCall {
+				continue
+			}
 		}
 		reassigned := false
 		for j := i + 1; j < idx; j++ {
